@@ -243,7 +243,7 @@ def run_job(cfile, job, workdir):
     if not r.obligations:
         r.reason = "zero obligations generated"
         return r
-    if other:
+    if other and not r.failed:
         r.reason = "%d obligation(s) with status other than SUCCESS/FAILURE (cbmc exit %d: out of memory or internal error)" % (other, rc)
         return r
     r.status = "failed" if r.failed else "ok"
